@@ -43,6 +43,12 @@ class C30(Check):
                 cycles.append({"inputs": {t["pos"]: bytes(rng.randrange(256) for _ in range(t["in"])) for t in terms},
                                "tamper": tamper, "lost": rng.random() < 0.04,
                                "outs": {t["pos"]: (rng.randrange(65536), rng.random() < 0.5, rng.randrange(256)) for t in terms}})
+            if len(out) % 3 == 1 and len(cycles) >= 3:
+                # a quiet bus: from the second cycle on two or three cycles repeat the one before - same inputs, same outputs set by
+                # the devices, no fault - so that consecutive responses are byte-identical; the devices must still run every cycle
+                for k in range(1, min(len(cycles), 2 + len(out) % 3 + 1)):
+                    cycles[k] = {"inputs": dict(cycles[k - 1]["inputs"]), "tamper": {}, "lost": False, "outs": dict(cycles[k - 1]["outs"])}
+                cycles[0]["tamper"] = {}
             out.append({"terms": terms, "cycles": cycles})
             if len(out) % 3 == 0:
                 # the group had been started, run for some cycles (its devices writing outputs) and cancelled before: a restart
@@ -219,6 +225,8 @@ class C30(Check):
 
     def model_term(self, case):
         o = case["_o"]
+        if isinstance(o, Err) or len(o["errs"]) < len(self.cycles_of(case, o)):
+            return None
         cs = clist([f"({cnat(p)}, {cz(c)})" for p, c in o["counters"]])
         items = []
         for k, (req, resp, nxt) in enumerate(self.cycles_of(case, o)):
@@ -234,6 +242,10 @@ class C30(Check):
         if len(cyc) != len(case["cycles"]):
             return f"only {len(cyc)} of {len(case['cycles'])} cycles completed"
         errs = o["errs"]
+        short = [(t["pos"], len(o["seen"][ti])) for ti, t in enumerate(case["terms"]) if len(o["seen"][ti]) < len(cyc)]
+        if short or len(errs) < len(cyc):
+            return (f"{len(cyc)} responses came back from the bus, but the devices were updated only {short or len(errs)} times: "
+                    f"they do not act on the latest response of every cycle")
         for k, (req, resp, nxt) in enumerate(cyc):
             c = case["cycles"][k]
             # (a) inputs of the latest response seen before update
@@ -279,7 +291,7 @@ class C30(Check):
     def rule(self):
         return ("every third case as a RESTART (the same group object had run for 2-5 cycles, its devices writing outputs, and been cancelled); " +
                 "1-4 terminals (FMMU or direct addressing, in 8-14 / out 4-9 bytes, a quarter only read although they have outputs) in a real SyncGroup on the simulated bus, 3-6 cycles with random input data, "
-                "device outputs (word, bit, byte per terminal), working counters tampered per datagram (+1, +256, +512, 0, -1, high byte garbage) and 4% lost frames; "
+                "(a third of the cases: a quiet bus - two or three cycles repeat the one before, so that consecutive responses are byte-identical), device outputs (word, bit, byte per terminal), working counters tampered per datagram (+1, +256, +512, 0, -1, high byte garbage) and 4% lost frames; "
                 "non-trivial = a tampered counter after the first cycle")
 
     def distribution(self, cases, observed):
